@@ -21,7 +21,10 @@ type Op = kvmodel.Op
 
 const far = 1000 // expiry ≈ 41 days ahead: never reached here (clock movement is C06's business)
 
-var allKeys = []string{"a", "b", "ab", "k/1", "k/2", "zz"}
+// besides plain keys: keys that some path-cleaning or prefix logic could confuse with each other or with nothing
+// ("a/" vs "a", "k//1" vs "k/1", "./a", "b/../a" vs "a"). The empty key is left out: gobwas/glob (v0.2.3) matches it with "?", a quirk of the library the contract refers to, not of golibs. Keys with a LEADING '/' stay excluded
+// (the Redis backend strips them by design).
+var allKeys = []string{"a", "b", "ab", "k/1", "k/2", "zz", "a/", "k//1", "./a", "b/../a"}
 
 // the operation instances enumerated exhaustively
 func alphabet(backend string) []Op {
@@ -74,6 +77,11 @@ func baseAlphabet() []Op {
 		{K: "List", Pat: "[ab]"},
 		{K: "List", Pat: "zz"},
 		{K: "List", Pat: "a"},
+		{K: "Put", Key: "a/", Val: 3},
+		{K: "Create", Key: "k//1", Val: 2},
+		{K: "Create", Key: "b/../a", Val: 3},
+		{K: "Delete", Key: "a/"},
+		{K: "Get", Key: "k//1"},
 		{K: "Wait", Key: "a", Ver: "stale"},
 		{K: "Wait", Key: "a", Ver: "bogus"},
 		{K: "Wait", Key: "zz", Ver: "bogus"},
@@ -133,7 +141,7 @@ func (w *worker) backend(name string) *kvmodel.Backend {
 func TestCheck(t *testing.T) {
 	run := report.New("C03", "exploration")
 	defer run.Finish(t)
-	run.Rule("every sequence over 42 (Redis) / 44 (inmem) operation instances (Create/Get/GetMany/Put/PutMany/CasByVersion/Delete/ListKeys/WaitForVersionChange; nil/empty/non-empty values; with/without far expiry; repeated, missing and no keys in GetMany/PutMany; current/stale/made-up/caller-supplied versions) to the depth bound, plus seeded random sequences of length 30-200 over 6 keys; each backend is compared call by call with the contract model (error class, returned record, version relations, ListKeys as a set). distinct = distinct logical store states (key, presence, value, expiry, kind of last write) reached")
+	run.Rule("every sequence over 48 (Redis) / 50 (inmem) operation instances (incl. keys like \"a/\", \"k//1\", \"b/../a\" ) (Create/Get/GetMany/Put/PutMany/CasByVersion/Delete/ListKeys/WaitForVersionChange; nil/empty/non-empty values; with/without far expiry; repeated, missing and no keys in GetMany/PutMany; current/stale/made-up/caller-supplied versions) to the depth bound, plus seeded random sequences of length 30-200 over 6 keys; each backend is compared call by call with the contract model (error class, returned record, version relations, ListKeys as a set). distinct = distinct logical store states (key, presence, value, expiry, kind of last write) reached")
 	run.Assume("Redis backend runs against the in-process miniredis server; keys with a leading '/' and invalid glob patterns are not generated (contract silent)")
 	run.Assume("values are compared with bytes.Equal (nil == empty), expiries as instants, ListKeys as a set")
 
@@ -295,7 +303,7 @@ func randomOp(rng *rand.Rand) Op {
 	case x < 82:
 		return Op{K: "Delete", Key: key()}
 	case x < 94:
-		return Op{K: "List", Pat: []string{"*", "a*", "*b", "?", "k/?", "[ab]", "zz", "k/*", "??", "*/*"}[rng.Intn(10)]}
+		return Op{K: "List", Pat: []string{"*", "a*", "*b", "?", "k/?", "[ab]", "zz", "k/*", "??", "*/*", "a/", "*/", "k/*1"}[rng.Intn(13)]}
 	default:
 		return Op{K: "Wait", Key: key(), Ver: []string{"stale", "bogus"}[rng.Intn(2)]}
 	}
